@@ -70,7 +70,37 @@ def scenarios(tier: str):
     # lenient write with a schema whose repair re-emits the text after the first emission (hash must be of what is written)
     for mode in ("new", "overwrite"):
         out.append({"entry": "tool", "mode": mode, "base_hash": False, "parent_missing": False, "fmode": 0o644, "size": "small", "repair": True})
+    base = {"base_hash": False, "parent_missing": False, "fmode": 0o644, "size": "small"}
+    # the old bytes are a near-copy of what the call is about to install: the same text, the same text with CRLF / lone CR
+    # line ends, the same text without its final newline ("nothing to do" short cuts must still leave new bytes == hash)
+    for entry in ("tool", "atomic", "cli"):
+        for oldkind in ("same", "crlf", "cr", "nofinalnl"):
+            for bh in (False, True):
+                if bh and oldkind in ("crlf", "cr"):
+                    continue  # the product hashes the newline-translated text, so sha256(bytes) is refused before anything is written
+                out.append({**base, "entry": entry, "mode": "overwrite", "base_hash": bh, "old": oldkind})
+    # CLI --changes (its own code path: read, apply, emit, atomic write), also with a change that sets the current value
+    for bh in (False, True):
+        out.append({**base, "entry": "cli", "mode": "changes", "base_hash": bh})
+        if not bh:
+            out.append({**base, "entry": "cli", "mode": "changes", "base_hash": bh, "old": "crlf_old", "noop_change": True})
+    out.append({**base, "entry": "tool", "mode": "changes", "old": "crlf_old", "noop_change": True})
+    # permission bits x umask, fault-free run only (an existing file keeps its bits whatever the process umask is)
+    for entry in ("tool", "atomic", "cli"):
+        for mode in (("overwrite", "changes") if entry != "atomic" else ("overwrite",)):
+            for fmode in (0o664, 0o660, 0o640, 0o755, 0o775, 0o666, 0o604):
+                for um in (0o022, 0o077, 0o000):
+                    out.append({**base, "entry": entry, "mode": mode, "fmode": fmode, "umask": um, "nofault": True})
     return out
+
+
+def old_text(sc) -> str:
+    k = sc.get("old")
+    if k is None:
+        return OLD_NONCANON if sc["mode"] == "normalize" else OLD
+    n = new_text(sc["size"])
+    return {"same": n, "crlf": n.replace("\n", "\r\n"), "cr": n.replace("\n", "\r"), "nofinalnl": n.rstrip("\n"),
+            "crlf_old": OLD.replace("\n", "\r\n")}[k]
 
 
 def setup(sc, root):
@@ -79,7 +109,7 @@ def setup(sc, root):
     target = os.path.join(d, "t.oct.md")
     old = None
     if sc["mode"] != "new":
-        old = (OLD_NONCANON if sc["mode"] == "normalize" else OLD).encode("utf-8")
+        old = old_text(sc).encode("utf-8")
         with open(target, "wb") as fh:
             fh.write(old)
         os.chmod(target, sc["fmode"])
@@ -102,7 +132,7 @@ def run_entry(sc, target, old):
         if sc["mode"] in ("new", "overwrite"):
             kw["content"] = content
         elif sc["mode"] == "changes":
-            kw["changes"] = {"K": "changed", "ADDED": [1, 2]}
+            kw["changes"] = {"K": "old"} if sc.get("noop_change") else {"K": "changed", "ADDED": [1, 2]}
         if bh:
             kw["base_hash"] = bh
         r = asyncio.run(WriteTool().execute(**kw))
@@ -116,7 +146,10 @@ def run_entry(sc, target, old):
 
     from octave_mcp.cli.main import cli
 
-    args = ["write", target, "--stdin"] + (["--base-hash", bh] if bh else [])
+    if sc["mode"] == "changes":
+        args = ["write", target, "--changes", json.dumps({"K": "old"} if sc.get("noop_change") else {"K": "changed", "ADDED": [1, 2]})] + (["--base-hash", bh] if bh else [])
+    else:
+        args = ["write", target, "--stdin"] + (["--base-hash", bh] if bh else [])
     res = CliRunner().invoke(cli, args, input=content, catch_exceptions=True)
     exc = res.exception if (res.exception is not None and not isinstance(res.exception, SystemExit)) else None
     m = None
@@ -148,6 +181,8 @@ def child(sc, root, plan, result_path):
                 raise OSError(code, os.strerror(code) + " (injected)")
         return None
 
+    if "umask" in sc:
+        os.umask(sc["umask"])
     fsx.install([root], hook)
     out = {}
     try:
@@ -191,7 +226,8 @@ def run_one(sc, base_dir, plan):
 
 
 def label_of(sc):
-    return f"{sc['entry']}/{sc['mode']}/bh{int(sc['base_hash'])}/pm{int(sc['parent_missing'])}/{oct(sc['fmode'])}/{sc['size']}" + ("/lenient-repair" if sc.get("repair") else "")
+    return (f"{sc['entry']}/{sc['mode']}/bh{int(sc['base_hash'])}/pm{int(sc['parent_missing'])}/{oct(sc['fmode'])}/{sc['size']}" + ("/lenient-repair" if sc.get("repair") else "")
+            + (f"/old={sc['old']}" if sc.get("old") else "") + ("/noop-change" if sc.get("noop_change") else "") + (f"/umask={oct(sc['umask'])}" if "umask" in sc else ""))
 
 
 def check_scenario(sc, base_dir, st: Stats, pairs: bool, only=None):
@@ -203,7 +239,7 @@ def check_scenario(sc, base_dir, st: Stats, pairs: bool, only=None):
         return fails
     trace = base["trace"]
     new_bytes = after["target"]
-    old_bytes = (OLD_NONCANON if sc["mode"] == "normalize" else OLD).encode() if sc["mode"] != "new" else None
+    old_bytes = old_text(sc).encode() if sc["mode"] != "new" else None
     want_hash = base["returned"].get("canonical_hash")
     if want_hash and hashlib.sha256(new_bytes).hexdigest() != want_hash:
         fails.append(("C16:unlisted:success-hash-mismatch", f"{label_of(sc)}: sha256(file) != canonical_hash after a successful write", {}))
@@ -212,6 +248,10 @@ def check_scenario(sc, base_dir, st: Stats, pairs: bool, only=None):
     names = [n for n, _ in trace]
     if "replace" in names and ("fsync" not in names or names.index("fsync") > names.index("replace")):
         fails.append(("C16:unlisted:replace-without-prior-fsync", f"{label_of(sc)}: trace has no fsync before replace: {names}", {}))
+    if sc.get("nofault"):
+        st.evaluations += 1
+        st.labels["fault_free_mode_umask_runs"] += 1
+        return fails
     if len(st.samples) < 2:
         st.samples.append({"scenario": label_of(sc), "boundaries": [f"{i}:{n} {info}" for i, (n, info) in enumerate(trace)],
                            "faults_per_boundary": ["kill", "torn (write boundaries)"] + [f for f, _ in FAULTS]})
